@@ -1,7 +1,8 @@
 (* Check/RetrieverCheck.v — correspondence check for Model/Retriever.v: the harness writes the DA it scripted
-   (blob classes per height, outcome scripts), the node configuration, the history it drove the real Manager
-   through, and what it observed per item (cursor, DA calls, events taken from headerInCh / dataInCh, result
-   class) plus the final DA-included marks; [mismatches] lists the cases on which the model disagrees. *)
+   (per height the POSTS: headers, junk kinds, and for SignedData blobs the tx list on the wire, Metadata present?,
+   signer, the tx list the signature covers — their class is computed by the model —, and the outcome scripts), the node configuration, the history it drove the real Manager
+   through, and what it observed per item (cursor, DA calls, events taken from headerInCh / dataInCh with the tx list
+   every data event carried, result class) plus the final DA-included marks; [mismatches] lists the cases on which the model disagrees. *)
 From Coq Require Import NArith List Bool.
 From Verif Require Import Model.Retriever.
 Import ListNotations.
@@ -123,6 +124,9 @@ Definition PH (id : N) : list post := [PHeader id].
    under the proposer's address) *)
 Definition PD (id : N) (meta signer : bool) (txs : list tx) : list post :=
   [PSigned {| sp_id := id; sp_wire := txs; sp_meta := meta; sp_signer := signer; sp_sigfor := Some txs |}].
+(* the proposer's signature over [sigtxs] (Metadata present), but [txs] on the wire *)
+Definition PX (id : N) (txs sigtxs : list tx) : list post :=
+  [PSigned {| sp_id := id; sp_wire := txs; sp_meta := true; sp_signer := true; sp_sigfor := Some sigtxs |}].
 
 (* ==== ticks during catch-up: correspondence check for the two-channel loop (Model/Retriever.v, lturn) ====
    The harness wakes the real RetrieveLoop with one signal while it is quiescent, and its DA double sends
